@@ -33,7 +33,7 @@ class SeekableSource:
         w = self.world
         self._enter()
         try:
-            w.sim.point('src.read')
+            w.sim.spoint('src.read')
             f = w.faults.hit('src', t=self.tidx)
             if f is not None:
                 exc = make_exc(f['exc'], f['id'])
@@ -103,7 +103,7 @@ class NonSeekableSource:
 
     def read(self, n=-1):
         w = self.world
-        w.sim.point('src.read')
+        w.sim.spoint('src.read')
         f = w.faults.hit('src', t=self.tidx)
         if f is not None:
             exc = make_exc(f['exc'], f['id'])
@@ -160,7 +160,7 @@ class SeekableDest:
             self.overlaps += 1
         self._inside += 1
         try:
-            w.sim.point('dst.write')
+            w.sim.spoint('dst.write')
             f = w.faults.hit('dst', t=self.tidx)
             if f is not None:
                 exc = make_exc(f['exc'], f['id'])
@@ -204,7 +204,7 @@ class NonSeekableDest:
             self.overlaps += 1
         self._inside += 1
         try:
-            w.sim.point('dst.write')
+            w.sim.spoint('dst.write')
             f = w.faults.hit('dst', t=self.tidx)
             if f is not None:
                 exc = make_exc(f['exc'], f['id'])
@@ -264,7 +264,7 @@ def make_subscriber_cls():
 
         def on_queued(self, future, **kwargs):
             w = self.world
-            w.sim.point('cb.queued')
+            w.sim.spoint('cb.queued')
             t = w.transfers[self.tidx]
             t['callbacks'].append((w.sim.stamp(), 'queued', self.sidx,
                                    w.sim.current.tid, None,
@@ -281,7 +281,7 @@ def make_subscriber_cls():
 
         def on_progress(self, future, bytes_transferred, **kwargs):
             w = self.world
-            w.sim.point('cb.progress')
+            w.sim.spoint('cb.progress')
             t = w.transfers[self.tidx]
             t['callbacks'].append((w.sim.stamp(), 'progress', self.sidx,
                                    w.sim.current.tid, bytes_transferred, None))
@@ -295,7 +295,7 @@ def make_subscriber_cls():
 
         def on_done(self, future, **kwargs):
             w = self.world
-            w.sim.point('cb.done')
+            w.sim.spoint('cb.done')
             t = w.transfers[self.tidx]
             coord = future._coordinator
             info = {'done': future.done(),
